@@ -14,7 +14,7 @@ def run(tier, seed, work, replay):
     for cfg in ("MC_KMClient.cfg", "MC_KMClient_noed25519.cfg"):
         E.tlc_mc(work, "KMClient", cfg, cov)
     for neg in ("Neg_KMClient_ServerLacksP384.cfg", "Neg_KMClient_AppendsInAgent.cfg", "Neg_KMClient_SkipsExpired.cfg",
-                "Neg_KMClient_RemovesFirstOnly.cfg", "Neg_KMClient_WorldReadableKey.cfg", "Neg_KMClient_SendsSeedForEd25519.cfg"):
+                "Neg_KMClient_RemovesFirstOnly.cfg", "Neg_KMClient_IgnoresRemoveFailure.cfg", "Neg_KMClient_WorldReadableKey.cfg", "Neg_KMClient_SendsSeedForEd25519.cfg"):
         r = E.tlc(work, "KMClient", neg, timeout=200, tag=neg)
         if not r["violated"]:
             raise E.Inconclusive("negative control %s found no violation" % neg)
@@ -41,10 +41,10 @@ def run(tier, seed, work, replay):
         cases = []
         for p in prefs:
             for m in modes:
-                for a, am in ((True, "ok"), (False, "none"), (True, "nolifetime"), (True, "refuse")):
+                for a, am in ((True, "ok"), (False, "none"), (True, "nolifetime"), (True, "refuse"), (True, "noremove"), (True, "noremove_once")):
                     if tier == "quick" and m != "password" and (p != "p256"):
                         continue   # RSA-3072 generation dominates: the full product is the thorough tier
-                    if tier == "quick" and am in ("nolifetime", "refuse") and not (p == "p256" and m == "password"):
+                    if tier == "quick" and am in ("nolifetime", "refuse", "noremove", "noremove_once") and not (p == "p256" and m == "password"):
                         continue
                     cases.append({"pref": p, "mode": m, "agent": a, "agentmode": am})
         cp = work.path("cases.ndjson")
